@@ -157,6 +157,7 @@ def listing_matches(lines, b: bytes):
     got = parse_listing(lines)
     gi = 0
     i = 0
+    in_try = []     # per open block: is it an OP_TRY_EXCEPT?
     # TRY with an empty EXCEPT is printed without the EXCEPT clause
     while i < len(ref):
         name, ops = ref[i]
@@ -166,11 +167,14 @@ def listing_matches(lines, b: bytes):
         if name in ('{', '}'):
             if gname != name:
                 return f'expected {name} got {gname}'
+            if name == '}' and in_try:
+                in_try.pop()
         elif name == '}{':
             if gname == '}{':
                 pass
-            elif gname == '}' and i + 1 < len(ref) and ref[i + 1][0] == '}':
-                i += 1          # empty second clause omitted
+            elif gname == '}' and i + 1 < len(ref) and ref[i + 1][0] == '}' \
+                    and in_try and in_try[-1]:
+                i += 1          # an empty EXCEPT clause may be omitted
             else:
                 return f'expected clause separator, got {gname}'
         else:
@@ -181,6 +185,9 @@ def listing_matches(lines, b: bytes):
             err = ops_match(name, ops, gops)
             if err:
                 return f'instruction #{i} {name}: {err}'
+            if name in ('OP_IF', 'OP_IF_ELSE', 'OP_TRY_EXCEPT', 'OP_LOOP',
+                        'OP_DEF'):
+                in_try.append(name == 'OP_TRY_EXCEPT')
         i += 1
         gi += 1
     if gi != len(got):
